@@ -182,9 +182,10 @@ def _prepare(url, opts=None):
 
 
 def puny_table(hostname):
-    """attempt_to_decode_idna on every label the model may hand to `puny`: the labels of the
-    host, of what their decoding gives, and of what follows a leading 'amp-'"""
-    from ural.utils import attempt_to_decode_idna
+    """the real label decoder (punylaws.decode_label: decode_punycode_hostname on one label) on
+    every label the model may hand to `puny`: the labels of the host, of what their decoding
+    gives, and of what follows a leading 'amp-'"""
+    from punylaws import decode_label
 
     t = {}
     if not hostname:
@@ -196,7 +197,7 @@ def puny_table(hostname):
             if lab[:4].lower() == "xn--":
                 k = lab[:4].lower() + lab[4:]
                 if k not in t:
-                    t[k] = attempt_to_decode_idna(k)
+                    t[k] = decode_label(k)
                     nxt.update(t[k].split("."))
                     nxt.update(t[k].lower().split("."))
             if lab.lower().startswith("amp-"):
